@@ -468,7 +468,10 @@ def run_case(case: dict) -> dict:
                                   scratch_registers=registers.scratch_registers)
         tr["stage"] = "get_asm"
         body = patch.get_asm(ctx) if patch is not None else "nop"
-        tr["cb"] = [{"i": p, "same": c is ctx, "isctx": isinstance(c, InsertionContext)}
+        # "same": what the callable received equals, field by field, the
+        # context get_asm was given (module, function, block, offset,
+        # stack_adjustment, scratch_registers)
+        tr["cb"] = [{"i": p, "same": bool(c == ctx), "isctx": isinstance(c, InsertionContext)}
                     for p, c in cblog]
         tr["stage"] = "assemble"
         pro_parts = [(s.code, s.x86_syntax) for s in prologue]
